@@ -141,12 +141,17 @@ def extract(g, X):
             raise KeyError("impl DeepClone for Primitive")
         b = X.fn_body(om[m.start():], "deep_clone")
         out = []
-        for a in re.finditer(r"Primitive::(\w+)(?:\(([^)]*)\))?\s*=>\s*Ok\(Primitive::(\w+)(?:\((.*?)\))?\)\s*[,}]", b):
-            v, pat, v2, expr = a.group(1), a.group(2) or "", a.group(3), a.group(4) or ""
-            if v != v2:
-                raise ValueError("arm %s builds %s" % (v, v2))
-            rec = 1 if "deep_clone(cloner)" in expr else 0
-            out.append((v, rec))
+        for arm in X.match_arms(b, r"\*?\s*self"):
+            for p in arm.pats:
+                v = X.variant_name(p)
+                built = re.findall(r"Ok\(\s*Primitive::(\w+)", arm.raw)
+                if v is None or arm.guard is not None or len(built) != 1:
+                    continue
+                if v != built[0]:
+                    raise ValueError("arm %s builds %s" % (v, built[0]))
+                # the arm (an expression, or a block with locals) clones what the variant holds through the cloner
+                rec = 1 if "deep_clone(cloner)" in arm.raw else 0
+                out.append((v, rec))
         if len(out) < 10:
             raise ValueError("only %d arms recognised" % len(out))
         return "[" + "; ".join("(%s, %d)" % (bl(v), r) for v, r in sorted(out)) + "]"
